@@ -21,6 +21,7 @@ import z3
 from pyvc import ops
 from pyvc.ops import Unsupported
 from pyvc.state import HeapObj
+from pyvc.symex import Outcome
 from pyvc.values import NONE, VBool, VExt, VFunc, VInt, VNoneT, VReal, VRef, VSeq, VStr, VTuple, VUnk, ext_sort, fresh_name
 
 from contracts import c03_exec as X
@@ -44,6 +45,14 @@ OVER = z3.Bool("pyvc!overapprox")     # marker assumed on every over-approximate
 
 def _mentions_over(exprs):
     return any(z3.eq(x, OVER) for x in exprs)
+
+
+UNRECOGNISED = z3.Not(OVER)     # goal of an obligation whose subject has a shape the contract does not recognise: it is not
+                                # provable and its `sat` is not a counter-model -> `unknown`, decided by the native replayer
+
+
+def _goal_unrecognised(goal):
+    return z3.eq(goal, UNRECOGNISED)
 
 
 def _mentions_seqmax(exprs):
@@ -125,11 +134,46 @@ def register_refuter():
     from pyvc import solve
     if seqmax_refuter not in solve.EXTRA_REFUTERS:
         solve.EXTRA_REFUTERS.append(seqmax_refuter)
-        solve.SAT_UNTRUSTED.append(lambda pc, goal: _mentions_over(pc) or _mentions_seqmax(list(pc) + [goal]))
+        solve.SAT_UNTRUSTED.append(lambda pc, goal: _mentions_over(pc) or _goal_unrecognised(goal) or _mentions_seqmax(list(pc) + [goal]))
 
 
 STR_GROUP = {}      # id of a str term that is the text of a regex group -> group facts (contracts/c04_regex.py)
 FLOAT_FACTS = {}    # id of a Float term -> {"nan": bool}
+
+
+def _occurs(term, var):
+    seen, stack = set(), [term]
+    while stack:
+        x = stack.pop()
+        if x.get_id() in seen:
+            continue
+        seen.add(x.get_id())
+        if z3.eq(x, var):
+            return True
+        if z3.is_quantifier(x):
+            stack.append(x.body())
+        elif z3.is_app(x):
+            stack.extend(x.children())
+    return False
+
+
+def _int_subterms_without(term, avoid, need):
+    """Maximal integer subterms of `term` that mention `need` but not `avoid` (candidates for the folded element function)."""
+    out, seen = [], set()
+
+    def walk(x):
+        if x.get_id() in seen:
+            return
+        seen.add(x.get_id())
+        if z3.is_int(x) and not _occurs(x, avoid):
+            if _occurs(x, need) and all(not z3.eq(x, y) for y in out):
+                out.append(x)
+            return
+        if z3.is_app(x):
+            for ch in x.children():
+                walk(ch)
+    walk(term)
+    return out
 
 
 def clamp(t):
@@ -287,8 +331,103 @@ class IfaceExecutor(X.UnitsExecutor):
     def symbolic_for(self, s, st, it):
         spec = self.loop_spec(s)
         if spec is None or spec.inv is None:
+            try:
+                r = self.fold_summary(s, st, it)
+            except (Unsupported, z3.Z3Exception):
+                r = None
+            if r is not None:
+                return r
             st.assume(OVER)
         return super().symbolic_for(s, st, it)
+
+    def fold_summary(self, s, st, it):
+        """Exact summary of an accumulator loop over a symbolic sequence (no contract needed, any body shape):
+        the body is executed once for an arbitrary index i with every integer accumulator replaced by a fresh symbol A; if the
+        body has no other effect (no exception, no heap write, no break / return / yield) and z3 proves that one step is
+        `A' = max(A, g(i))` with g independent of A and g(i) >= the initial value, the loop computes
+        seq_max(k |-> g(k), n, initial) (FOLD-MAX: induction on n, part of the trusted reasoning); `A' = A + 1` gives initial + n.
+        Returns the post-loop outcomes, or None when the loop is not of that kind (then it is cut and marked over-approximated)."""
+        view = self.seq_view(st, it)
+        if view is None or s.orelse or self._has_yield(s.body):
+            return None
+        n, elem = view
+        tnames = {x.id for x in ast.walk(s.target) if isinstance(x, ast.Name)}
+        names = sorted(self.assigned_names(s.body) - tnames)
+        accs, temps = {}, []
+        body = st.fork()
+        i = z3.Int(fresh_name("i"))
+        body.assume(z3.And(i >= 0, i < n))
+        for name in names:
+            cur = st.lookup(name)
+            if cur is None:
+                temps.append(name)
+            elif isinstance(cur, VInt) and not cur.is_bv:
+                a = z3.Int(fresh_name(f"acc_{name}"))
+                accs[name] = (a, ops.int_term(cur))
+                body.bind(name, VInt(a))
+            else:
+                return None
+        if not accs:
+            return None
+        base_len = len(body.pc)
+        heap0 = dict(body.heap)
+        self.sinks.append([])
+        try:
+            outs = []
+            for s3 in self.assign(s.target, elem(i), body):
+                outs.extend(self.exec_block(s.body, s3))
+        finally:
+            sink = self.sinks.pop()
+        if sink or not outs or any(o.kind not in ("fall", "continue") for o in outs):
+            return None
+        for o in outs:
+            if any(o.st.heap.get(r) is not h for r, h in heap0.items()) or len(o.st.yielded) != len(body.yielded):
+                return None
+        post = {}
+        for name, (a, init) in accs.items():
+            f = None
+            for o in reversed(outs):
+                v = o.st.lookup(name)
+                if not isinstance(v, VInt) or v.is_bv:
+                    return None
+                c = z3.And(o.st.pc[base_len:] + [z3.BoolVal(True)])
+                f = ops.int_term(v) if f is None else z3.If(c, ops.int_term(v), f)
+            others = [x for nm, (x, _i) in accs.items() if nm != name]
+            if any(_occurs(f, x) for x in others):
+                return None
+            summary = None
+            # count: A' == A + 1
+            if self._valid(body.pc[:base_len], f == a + 1):
+                summary = init + n
+            else:
+                cands = _int_subterms_without(f, a, i)
+                for g in cands[:12]:
+                    if self._valid(body.pc[:base_len], z3.And(f == z3.If(g > a, g, a), g >= init)):
+                        lam = z3.Lambda([K], z3.substitute(g, (i, K)))
+                        summary = SEQMAX(lam, n, init)
+                        break
+            if summary is None:
+                if self._valid(body.pc[:base_len], f == a):
+                    summary = init
+                else:
+                    return None
+            post[name] = summary
+        after = st
+        after.assume(n >= 0)
+        for name, t in post.items():
+            after.bind(name, VInt(t))
+        for name in temps:
+            after.bind(name, VUnk(f"loop-temp:{name}"))
+        for name in tnames:
+            after.bind(name, VUnk(f"loop-target:{name}"))
+        return [Outcome("fall", after)]
+
+    def _valid(self, pc, goal):
+        sol = z3.Solver()
+        sol.set("timeout", 3000)
+        sol.add(*pc)
+        sol.add(z3.Not(goal))
+        return sol.check() == z3.unsat
 
     def s_While(self, s, st):
         spec = self.loop_spec(s)
@@ -334,6 +473,86 @@ class IfaceExecutor(X.UnitsExecutor):
                 if attr in consts:
                     return [(st, self.lift_const(consts[attr], f"{base.sort}.{attr}"))]
         return super().get_attr(st, base, attr, node)
+
+    # ------------------------------------------------ displays and calls --
+    def e_List(self, n, st):
+        """[*xs] / [a, *xs, b] with a symbolic sequence: concatenation of the parts."""
+        if any(isinstance(e, ast.Starred) for e in n.elts):
+            out = []
+            for (s, parts) in self._ev_parts(n.elts, st):
+                acc = None
+                for kind, v in parts:
+                    view = (z3.IntVal(1), (lambda k, v=v: v)) if kind == "one" else self._list_view(s, v)
+                    if view is None:
+                        raise Unsupported(f"{self.loc(n)} starred of {v!r}")
+                    if acc is None:
+                        acc = view
+                    else:
+                        (na, ea), (nb, eb) = acc, view
+                        acc = (z3.simplify(na + nb), (lambda k, na=na, ea=ea, eb=eb: X._ite_val(k < na, ea(k), eb(k - na))))
+                if acc is None:
+                    out.append((s, self.new_list(s, [])))
+                else:
+                    out.append((s, self.new_alist(s, VSeq(acc[0], acc[1], "unk"))))
+            return out
+        return super().e_List(n, st)
+
+    def _ev_parts(self, nodes, st):
+        acc = [(st, [])]
+        for n in nodes:
+            nxt = []
+            for (s, parts) in acc:
+                if isinstance(n, ast.Starred):
+                    for (s2, v) in self.ev(n.value, s):
+                        nxt.append((s2, parts + [("many", v)]))
+                else:
+                    for (s2, v) in self.ev(n, s):
+                        nxt.append((s2, parts + [("one", v)]))
+            acc = nxt
+        return acc
+
+    def e_Call(self, n, st):
+        """f(..., **d) where d is a dict display / dict(...) with constant keys: rewritten to explicit keywords."""
+        if any(k.arg is None for k in n.keywords) and not self.is_logger_call(n):
+            kws = []
+            for k in n.keywords:
+                if k.arg is not None:
+                    kws.append(k)
+                    continue
+                lit = k.value
+                if isinstance(lit, ast.Name):
+                    fnode = self.cur_fn_stack[-1] if self.cur_fn_stack else None
+                    binds = [x for x in ast.walk(fnode) if isinstance(x, ast.Assign) and len(x.targets) == 1 and isinstance(x.targets[0], ast.Name)
+                             and x.targets[0].id == lit.id] if fnode is not None else []
+                    touched = [x for x in ast.walk(fnode) if (isinstance(x, ast.Subscript) and isinstance(x.value, ast.Name) and x.value.id == lit.id
+                                                               and isinstance(x.ctx, (ast.Store, ast.Del)))
+                               or (isinstance(x, ast.Call) and isinstance(x.func, ast.Attribute) and isinstance(x.func.value, ast.Name) and x.func.value.id == lit.id
+                                   and x.func.attr in ("update", "setdefault", "pop", "clear", "popitem"))] if fnode is not None else [1]
+                    lit = binds[0].value if len(binds) == 1 and not touched else None
+                if isinstance(lit, ast.Dict) and all(isinstance(x, ast.Constant) and isinstance(x.value, str) for x in lit.keys):
+                    kws.extend(ast.keyword(arg=x.value, value=v) for x, v in zip(lit.keys, lit.values))
+                elif isinstance(lit, ast.Call) and isinstance(lit.func, ast.Name) and lit.func.id == "dict" and not lit.args and all(x.arg for x in lit.keywords):
+                    kws.extend(lit.keywords)
+                else:
+                    raise Unsupported(f"{self.loc(n)} **kwargs call")
+            n2 = ast.Call(func=n.func, args=n.args, keywords=kws)
+            ast.copy_location(n2, n)
+            return super().e_Call(n2, st)
+        return super().e_Call(n, st)
+
+    def b_map(self, st, args, kwargs, node):
+        """map(len, xs) over a symbolic sequence of rows."""
+        if len(args) == 2 and isinstance(args[0], VFunc) and args[0].how == "builtin" and args[0].a == "len":
+            view = self._list_view(st, args[1])
+            if view is not None and self.concrete_items(st, args[1]) is None:
+                n_, el = view
+                sample = el(K)
+                if isinstance(sample, VSeq) or (isinstance(sample, VExt) and sample.sort == "Bytes") or isinstance(sample, VStr):
+                    def ln(k, el=el):
+                        v = el(k)
+                        return VInt(v.length) if isinstance(v, VSeq) else (VInt(BLEN(v.t)) if isinstance(v, VExt) else VInt(z3.Length(v.t)))
+                    return [(st, VSeq(n_, ln, "int"))]
+        return self.havoc_call(st, "map", args, node)
 
     # ---------------------------------------------------------------- bytes --
     def truth(self, st, v):
@@ -407,7 +626,28 @@ class IfaceExecutor(X.UnitsExecutor):
             return [(st, VInt(z3.Int(fresh_name("int_of_float"))))]
         return super().b_int(st, args, kwargs, node)
 
+    def _list_view(self, st, v):
+        """(length term, elem(k)) of a list-like value (concrete list, abstract list, symbolic sequence), else None."""
+        if isinstance(v, VRef):
+            o = st.obj(v.ref)
+            if o.kind == "alist":
+                return o.data.length, o.data.elem
+            if o.kind == "list" and o.data is not None:
+                items = list(o.data)
+                return z3.IntVal(len(items)), (lambda k, items=items: X._sel(items, k))
+            return None
+        if isinstance(v, VSeq) and not v.is_bytes:
+            return v.length, v.elem
+        return None
+
     def binop(self, st, op, a, b, node, inplace=False):
+        if op == "Add" and not inplace:
+            va, vb = self._list_view(st, a), self._list_view(st, b)
+            ca, cb = self.concrete_items(st, a), self.concrete_items(st, b)
+            if va is not None and vb is not None and not (ca is not None and cb is not None):
+                (na, ea), (nb, eb) = va, vb
+                seq = VSeq(z3.simplify(na + nb), lambda k, na=na, ea=ea, eb=eb: X._ite_val(k < na, ea(k), eb(k - na)), "unk")
+                return [(st, self.new_alist(st, seq))]
         fa = isinstance(a, VExt) and a.sort == "Float"
         fb = isinstance(b, VExt) and b.sort == "Float"
         if fa or fb:
